@@ -133,6 +133,13 @@ def c14_cases(tier, rng):
     for addr in (b"50%%off@x.org", b"100%@x.org", b"user%example.org@relay.x.org", b"a%sb@x.org", b"%d%v%x@x.org", b"a%20b@x.org", b"%@x.org"):
         for mo, ro in ((None, None), (dict(size=5), None), (None, dict(notify=[b"SUCCESS"])), (dict(), dict())):
             c = E2E(); c.mail(addr, mo); c.rcpt(addr, ro); c.rcpt(b"r2-" + addr, None); cases.append(c.case())
+    # a MAIL the backend refuses (or accepts), carrying every option, followed — without RSET — by a MAIL carrying fewer: the backend sees
+    # exactly the second one's options; nothing of the first sticks
+    full = dict(size=4321, utf8=1, ret=b"FULL", envid=b"first+id =1", auth=b"u@d", body=b"BINARYMIME")
+    for second in (None, dict(size=17), dict(ret=b"HDRS"), dict(envid=b"e2"), dict(auth=b""), dict(utf8=1)):
+        for dec in (g.se(550, "5.7.1", b"blocked"), g.se(451, "4.3.0", b"later"), "ok"):
+            c = E2E(); c.mail(b"blocked@x.org", full, dec=dec); c.mail(b"allowed@x.org", second); c.rcpt(b"r@x.org")
+            c.data([b"m\r\n"]); cases.append(c.case())
     # every option subset
     fields_m = [("size", 12345), ("utf8", 1), ("ret", b"HDRS"), ("envid", rng.choice([b"id+1=x y", b"50%off %s %d%%", b"100%"])),
                 ("auth", rng.choice([b"u@d", b"100%user@d.org", b"a%sb@d"])), ("body", b"8BITMIME")]
